@@ -19,6 +19,16 @@ CLAIMS = {
  "C04": dict(category="other", technique="Lean 4 theorems (collect_garbage no-op/modes/counters) + logical-mesh oracle on every GC step + model correspondence",
    text="Lean theorems: collect_garbage is the identity when nothing is pending, otherwise restores deferred mode, keeps fast mode and all incidence flags, and leaves no pending counter; leaving deferred mode collects first. On every garbage-collection step of generated histories the token-named logical mesh and all property values before and after are compared (oracle) and the result is compared with the Lean model. StatusAttrib::garbage_collection and tracked-handle remapping are not covered yet.",
    note="as C01"),
+
+ "C05": dict(category="other", technique="Lean 4 theorems about the two iterator state machines (entity skip loops; circulator idx/lap/valid) + every class x centre x max_laps 1..3 compared with the machines on generated meshes",
+   text="Lean theorems for every flag array / list / max_laps: entity iteration visits exactly the live slots ascending; a circulator dereferences its list max_laps times, equals make_end_circulator after |L|*max_laps increments (closed form of every intermediate state), stepping back undoes stepping forward at valid positions, empty list => immediately invalid, sort+unique lists are duplicate-free with the same members. All 26 circulator classes, 6 entity iterators (and boundary iterators via C01) are enumerated on every sampled state and compared with the machines and with the brute-force incident sets. Known finding F10: operator-- from the end state stays invalid (proved as a theorem about the machine, observed on the code).",
+   note="which list each class's constructor builds is modelled by hand (Kernel/Query.lean) and tied by the correspondence run only"),
+ "C09": dict(category="other", technique="Lean 4 theorems about reorder_incident_halffaces (walk = rotation chain, write-back = list + mirrored reverse, frame) + decidable fan-order predicate evaluated on every state of generated histories",
+   text="Lean theorems: the forward walk of reorder collects a chain in which each halfface is followed by the opposite of its in-cell neighbour and only a boundary halfface or the return to the start ends it; the write-back stores that list and its mirrored reverse in the two halfedge slots and touches nothing else. Across histories (add_cell in every attachment order, deletions, swaps, GC, incidence toggling) the specification-level fan order (computed from definitions only) is compared with the cached lists for every single-fan edge on every step; adjacent_halfface_in_cell is compared with the model and checked unique/involutive on closed cells.",
+   note="preservation of rotational order by all mutators (RotInv) is not a theorem yet: dynamic"),
+ "C10": dict(category="other", technique="Lean 4 theorems (find_halfedge / find_halfface sound and complete under the cache invariant) + exhaustive argument enumeration on generated meshes against brute force",
+   text="Lean theorems under CacheInv: find_halfedge and find_halfface(halfedges) return a live matching entity iff one exists; find_halfface(vertices) is sound; is_incident and next_halfedge facts. On generated meshes every lookup is asked for all ordered vertex pairs/triples (capped), rotated/reversed/complete vertex tuples of every halfface, all halfedge pairs, all (cell, …) combinations, and compared with the model and with brute-force soundness/completeness criteria.",
+   note="completeness of find_halfface(vertices) is only claimed when the two halfedges are unique (parallel duplicate edges can hide a face, F11: documented limitation, not counted as a violation)"),
  "C08": dict(category="other", technique="Lean 4 proof about definitions translated from Handles.hh/TopologyKernel.hh by a clang-AST translator (regenerated every run) + mirror algebra on the model + correspondence",
    text="The handle arithmetic (subidx, full, opp, half, the static conversions, the four correctValue shifts, is_valid) is re-translated from the current sources on every run and the theorems (mutual inverses, opposite involution, same parent / other side, no int overflow below 2^30, member = static forms, shift = renumbering) are re-proved against it; the model's own arithmetic is proved equal to the generated one. On the model: opposite halfedge swaps endpoints, opposite halfface is the reversed list of opposites, twice is the identity, mirrored closed loops stay closed. next/prev/get_halfface_vertices are checked on generated meshes (oracles + model).",
    note="translator tools/t1_handles.py (clang-14 JSON AST, fails closed) is trusted; add_face(vertices) closedness and circulator direction are checked dynamically only"),
